@@ -164,6 +164,13 @@ def real_scenarios(focus, tier, seed):
                         out.append(dict(mode=mode, transport=transport, origin=origin,
                                         writers=2 if origin != "dial" else 1, calls=10 if tier == "quick" else 30,
                                         maxsize=150000, maxwb=0, ops="wvs"))
+        # the only writer runs inside the DialAsync callback and leaves a backlog behind (nothing is written afterwards)
+        for mode in ("LT", "ET", "OS"):
+            out.append(dict(mode=mode, transport="tcp", origin="dialcb", writers=1, calls=10, maxsize=150000, maxwb=0, ops="wv"))
+        # a long backlog of many queue entries: the peer reads nothing until every call was made, then everything
+        for mode in ("LT", "ET", "OS"):
+            out.append(dict(mode=mode, transport="tcp", origin="goroutine", writers=1, calls=400, maxsize=100000, maxwb=0, ops="wv",
+                            paused=True))
     else:
         for rep in range(reps):
             for mode in ("LT", "ET", "OS"):
